@@ -18,6 +18,7 @@ def total_check(cfg, teams, call, ctx=None):
     """The oracle shared by the Hypothesis clause and the atheris target."""
     kind = cfg["kind"]
     model = mk_model(cfg)
+    total_check.last_model = model
     objs = mk_teams(model, teams)
     n = len(teams)
     for op in ("predict_win", "predict_draw", "predict_rank"):
@@ -51,6 +52,23 @@ def total_check(cfg, teams, call, ctx=None):
 def check_c08(case, ctx):
     cfg, teams, call = case["cfg"], case["teams"], case["call"]
     res = total_check(cfg, teams, call, ctx)
+    if case.get("then"):
+        # a second valid game through the same model object (fresh ratings): totality must not depend on what was called before
+        nxt = case["then"]
+        model = total_check.last_model
+        objs = mk_teams(model, nxt["teams"])
+        try:
+            model.predict_draw(objs)
+            r2 = model.rate(objs, **call_kwargs(nxt["call"]))
+        except Exception as e:  # noqa: BLE001
+            raise Violation(f"second-call:raised:{type(e).__name__}",
+                            f"{cfg['kind']}: after rate({call}) on the same model, rate({nxt['call']}) raised {type(e).__name__}: {e}") from None
+        ctx.called(2)
+        for t in r2:
+            for p in t:
+                if not (finite(p.mu) and finite(p.sigma)):
+                    raise Violation("second-call:nonfinite", f"{cfg['kind']}: after rate({call}), rate({nxt['call']}) returned mu={p.mu!r} sigma={p.sigma!r}")
+        ctx.label("second-call")
     for lab in gen.game_labels(case):
         ctx.label(lab)
     tau = eff_tau(cfg, call)
@@ -83,12 +101,34 @@ def cases(draw):
             for p in t:
                 if p[1] == 0.0:
                     p[1] = 1e-4 * cfg["beta"]
+    if draw(st.booleans()):
+        g2 = draw(gen.games(cfg=cfg, max_teams=4, max_size=4, allow_zero_sigma=True, regimes=["corner", "generic", "identical"]))
+        tau2 = eff_tau(cfg, g2["call"])
+        if tau2 < 1e-6 * cfg["beta"]:
+            for t in g2["teams"]:
+                for p in t:
+                    if p[1] == 0.0:
+                        p[1] = 1e-4 * cfg["beta"]
+        g["then"] = {"teams": g2["teams"], "call": g2["call"]}
     return g
+
+
+def fuzz_custom(ctx, seed, tier, shard, nshards, n):
+    """atheris / libFuzzer campaign: even shards start from the empty corpus, odd shards from the golden-shaped seed games."""
+    from vf.fuzz.c08_target import seed_corpus
+    from vf.fuzz.harness import fuzz_clause
+
+    corpus = seed_corpus() if shard % 2 == 1 else []
+    ctx.label("corpus:" + ("golden-shapes" if corpus else "empty"))
+    fuzz_clause(ctx, "vf.fuzz.c08_target", n, seed, f"c08-{shard}", corpus, max_len=1024)
 
 
 PROPERTY = Property(
     pid="C08",
     clauses=[
+        Clause(name="atheris-totality", kind="custom", custom=fuzz_custom, check=check_c08, quick=8000, thorough=640000, shards_quick=2, shards_thorough=16,
+               rule="coverage-guided libFuzzer campaign (atheris, openskill instrumented): bytes decoded into a structured valid game of the same domain, same "
+                    "oracle inside the target; shards alternate between the empty corpus and seed inputs shaped like the repository's golden games"),
         Clause(name="totality", strategy=cases(), check=check_c08, quick=8000, thorough=200000,
                rule="predict_win, predict_draw, predict_rank and rate on one generated game of the widest stated domain (2..8 teams, 1..16 players, corner-heavy "
                     "values, sigma = 0 with tau >= 1e-6 beta, kappa down to 1e-12, scale 1e-3..1e3); non-trivial = team of >= 8 players, or sigma = 0, or the "
